@@ -333,6 +333,11 @@ def build(ops):
                 b.assign_implicit(tuple(op[1]), tuple(op[2]), tuple(dec(x, fr) for x in op[3]),
                                   {k_: dec(v, fr) for k_, v in sorted((op[4] if len(op) > 4 else {}).items())},
                                   "solver")
+            elif k == "reserve":
+                # temporaries allocated up front: the name is handed out now and used only later (as "$k")
+                name = b.fresh_var_name(op[1])
+                hand_out(name, "fresh_var_name(%r)" % op[1])
+                info["fresh"].append(name)
             elif k == "fresh":
                 # the builder can only avoid names it has been told about in EARLIER calls
                 name = b.fresh_var_name(op[1])
@@ -926,6 +931,16 @@ def bounded(payload):
                     fp_fail.append(rec)
             else:
                 new_fail.append(rec)
+
+    # temporaries allocated up front with prefixes that are themselves generated-looking (P, P, P_0, ...): the names
+    # handed out must be pairwise different whatever was used in a statement so far
+    for prefixes in (["rhs", "rhs", "rhs_0", "rhs"], ["temp", "temp", "temp_0"], ["<cond>", "<cond>", "<cond>_0"],
+                     ["k", "k_0", "k", "k"]):
+        ops = [["reserve", p_] for p_ in prefixes]
+        ops += [["assign", "$%d" % i, ["+", "x", i + 1]] for i in range(len(prefixes))]
+        ops.append(["assign", "<state>y", ["+", "$0", "$%d" % (len(prefixes) - 1)]])
+        run({"ops": ops, "ctx": SMALL_CTX}, "exhaustive_programs")
+        parts["reserved_up_front_programs"] = parts.get("reserved_up_front_programs", 0) + 1
 
     pool = small_pool()
     sub = [pool[k] for k in SUBPOOL]
